@@ -1,16 +1,69 @@
 (** C19 -- an interrupted signature-file write never yields a loadable wrong file.
-    [dump_ops] (Model/Store.v) is the sequence of storage-library calls of one write; the writer may
-    die between any two of them.  What then is on disk is decided by libhdf5/the OS and enters as the
-    [policy] of [crash_disk]: [AtClose] = what is on disk before close ([junk]) cannot be parsed (observed on
-    every run by the fault-enumeration harness), [Eager] = every call is flushed.
-    [is_prefix], [strict_prefix], [outcome_of], [disk_after], [safe_part] are defined in Proofs/C19.v. *)
+    [dump_ops] (Model/Store.v) is the sequence of storage-library calls of one write in the repaired order
+    (repo_fixes/C19-marker-last.diff: the format marker is the LAST call); [dump_ops_v0] is the order of the
+    code as found (marker first).  The writer may die between any two calls, in two ways:
+      killed  ([Crashed done]): what then is on disk is decided by libhdf5/the OS and enters as the [policy] of
+              [crash_disk]: [AtClose] = what is on disk before close ([junk]) cannot be parsed (what the fault-enumeration
+              harness observes for the repository's writer), [Eager] = every completed call is on the disk, [FlushedAt k] =
+              the first k completed calls are (a flush after the k-th call and none later) -- every flush schedule;
+      raised  ([Raised done]): KeyboardInterrupt, SystemExit, MemoryError, an I/O error of one call, an exception of
+              the signature source -- the exception unwinds through [with h5.File(path, 'w')], h5py closes the file
+              cleanly, the file is the well-formed HDF5 file holding exactly the calls done ([raised_disk]).
+    [is_prefix], [strict_prefix], [outcome], [outcome_of], [all_calls_done], [disk_after], [disk_after_v0],
+    [safe_part_v0] are defined in Proofs/C19.v, [disk_after_over] in Proofs/C19Over.v. *)
 From Coq Require Import ZArith List Bool.
 From GV Require Import Model.Store Model.StoreOver Proofs.C12 Proofs.C19 Proofs.C19Over.
 Import ListNotations.
 Open Scope Z_scope.
 
-(** under AtClose every crash point of every write of every collection leaves a file that is refused
-    (SignaturesFileError by the repaired reader; OSError, KeyError or SignaturesFileError by the current one) *)
+(** ---- the repaired order: safe whatever reaches the disk ------------------------------------------ *)
+
+(** with the marker last, EVERY strict prefix of the calls of every write of every collection leaves a file
+    that is refused, under EVERY durability policy ([forall pol]: AtClose, Eager, FlushedAt k for every k) -- in particular
+    when every call was flushed
+    (SignaturesFileError by the repaired reader; OSError, KeyError or SignaturesFileError by the reader as found) *)
+Theorem C19_marker_last_any_policy : forall pol p c junk done, unparsable junk = true -> strict_prefix done (dump_ops p c) ->
+  load_file (crash_disk pol junk done) = SErr ESigFile /\
+  (load_file_cur (crash_disk pol junk done) = SErr EOS \/
+   load_file_cur (crash_disk pol junk done) = SErr EKey \/
+   load_file_cur (crash_disk pol junk done) = SErr ESigFile).
+Proof. exact C19_marker_last_any_policy_l. Qed.
+Print Assumptions C19_marker_last_any_policy.
+
+(** the same in the weaker form "loading fails with an error", for both readers *)
+Theorem C19_marker_last_any_policy_ex : forall pol p c junk done, unparsable junk = true -> strict_prefix done (dump_ops p c) ->
+  (exists e, load_file (crash_disk pol junk done) = SErr e) /\
+  (exists e, load_file_cur (crash_disk pol junk done) = SErr e).
+Proof. exact C19_marker_last_any_policy_ex_l. Qed.
+Print Assumptions C19_marker_last_any_policy_ex.
+
+(** death by an exception at any point before the last call: the calls done so far ran, the file left behind IS a
+    well-formed HDF5 file holding them (clean close), and both readers refuse it with SignaturesFileError *)
+Theorem C19_exception_death : forall p c done, wf_coll c = true -> strict_prefix done (dump_ops p c) ->
+  exists st, run done empty_store = SOk st /\
+             disk_after Eager (DRaw []) p c (Raised done) = SOk (DHdf st) /\
+             load_file (DHdf st) = SErr ESigFile /\ load_file_cur (DHdf st) = SErr ESigFile.
+Proof. exact C19_exception_death_l. Qed.
+Print Assumptions C19_exception_death.
+
+(** ... for any collection (no well-formedness hypothesis): whenever the calls [done] ran at all *)
+Theorem C19_exception_death_any : forall p c done d, strict_prefix done (dump_ops p c) ->
+  raised_disk done = SOk d -> load_file d = SErr ESigFile /\ load_file_cur d = SErr ESigFile.
+Proof. exact C19_exception_death_any_l. Qed.
+Print Assumptions C19_exception_death_any.
+
+(** a file that loads after ANY outcome (killed under any policy, raised, completed) comes from a write that got
+    through all its calls and loads as exactly what was written *)
+Theorem C19_complete_any_policy : forall pol p c junk o d l, wf_coll c = true -> unparsable junk = true ->
+  outcome_of p c o -> disk_after pol junk p c o = SOk d ->
+  (load_file d = SOk l \/ load_file_cur d = SOk l) ->
+  all_calls_done p c o /\ l = loaded_of c /\ decode l = SOk c.(c_sigs).
+Proof. exact C19_complete_any_policy_l. Qed.
+Print Assumptions C19_complete_any_policy.
+
+(** ---- policy AtClose (what the harness observes for a killed writer) --------------------------- *)
+
+(** under AtClose every crash point (including after the last call, before close) leaves a file that is refused *)
 Theorem C19_atclose : forall p c junk done, unparsable junk = true -> is_prefix done (dump_ops p c) ->
   load_file (crash_disk AtClose junk done) = SErr ESigFile /\
   (load_file_cur (crash_disk AtClose junk done) = SErr EOS \/
@@ -19,35 +72,57 @@ Theorem C19_atclose : forall p c junk done, unparsable junk = true -> is_prefix 
 Proof. exact C19_atclose_l. Qed.
 Print Assumptions C19_atclose.
 
-(** under AtClose a file that loads comes from a completed write and loads as what was written *)
+(** under AtClose a file that loads comes from a completed write (or from a writer that raised after its last
+    call) and loads as what was written *)
 Theorem C19_complete : forall p c junk o d l, wf_coll c = true -> unparsable junk = true -> outcome_of p c o ->
   disk_after AtClose junk p c o = SOk d ->
   (load_file d = SOk l \/ load_file_cur d = SOk l) ->
-  o = Completed /\ l = loaded_of c /\ decode l = SOk c.(c_sigs).
+  (o = Completed \/ o = Raised (dump_ops p c)) /\ l = loaded_of c /\ decode l = SOk c.(c_sigs).
 Proof. exact C19_complete_l. Qed.
 Print Assumptions C19_complete.
 
-(** without that buffering the marker-first write order is NOT safe: a crash before the last
-    per-signature write loads as a collection with a zero-filled signature *)
-Theorem C19_eager_refuted :
+(** ---- the order as found (marker first, [dump_ops_v0]) ----------------------------------------- *)
+
+(** a KILLED writer under AtClose is refused whatever the order of the calls *)
+Theorem C19_marker_first_atclose : forall p c junk done, unparsable junk = true -> is_prefix done (dump_ops_v0 p c) ->
+  load_file (crash_disk AtClose junk done) = SErr ESigFile /\
+  (load_file_cur (crash_disk AtClose junk done) = SErr EOS \/
+   load_file_cur (crash_disk AtClose junk done) = SErr EKey \/
+   load_file_cur (crash_disk AtClose junk done) = SErr ESigFile).
+Proof. exact C19_marker_first_atclose_l. Qed.
+Print Assumptions C19_marker_first_atclose.
+
+(** THE DEFECT of the code as found: the writer raises before the last per-signature write, the context manager
+    closes the file, and the file LOADS (both readers) as a collection with a zero-filled signature *)
+Theorem C19_marker_first_raised_refuted :
+  exists p c done d l,
+    wf_coll c = true /\ strict_prefix done (dump_ops_v0 p c) /\
+    disk_after_v0 AtClose (DRaw []) p c (Raised done) = SOk d /\
+    load_file d = SOk l /\ load_file_cur d = SOk l /\
+    decode l = SOk [[1; 5]; [0]] /\ decode l <> SOk c.(c_sigs).
+Proof. exact C19_marker_first_raised_refuted_l. Qed.
+Print Assumptions C19_marker_first_raised_refuted.
+
+(** the same for a killed writer whose calls were all flushed *)
+Theorem C19_marker_first_eager_refuted :
   exists p c junk done l,
-    wf_coll c = true /\ strict_prefix done (dump_ops p c) /\
+    wf_coll c = true /\ strict_prefix done (dump_ops_v0 p c) /\
     load_file (crash_disk Eager junk done) = SOk l /\
     decode l = SOk [[1; 5]; [0]] /\ decode l <> SOk c.(c_sigs).
-Proof. exact C19_eager_refuted_l. Qed.
-Print Assumptions C19_eager_refuted.
+Proof. exact C19_marker_first_eager_refuted_l. Qed.
+Print Assumptions C19_marker_first_eager_refuted.
 
-(** the unsafe window is exactly "after the values dataset was created" of the per-signature path:
-    before it, and for every crash point of the whole-array path, the file is refused even under Eager *)
-Theorem C19_eager_window : forall p c junk done, unparsable junk = true -> is_prefix done (safe_part p c) ->
+(** the unsafe window of the order as found is exactly "after the values dataset was created" of the per-signature
+    path: before it, and for every death point of the whole-array path, the file is refused even under Eager *)
+Theorem C19_marker_first_eager_window : forall p c junk done, unparsable junk = true -> is_prefix done (safe_part_v0 p c) ->
   exists e, load_file (crash_disk Eager junk done) = SErr e.
-Proof. exact C19_eager_window_l. Qed.
-Print Assumptions C19_eager_window.
+Proof. exact C19_marker_first_eager_window_l. Qed.
+Print Assumptions C19_marker_first_eager_window.
 
-Theorem C19_eager_whole : forall c junk done, unparsable junk = true -> strict_prefix done (dump_ops Whole c) ->
+Theorem C19_marker_first_eager_whole : forall c junk done, unparsable junk = true -> strict_prefix done (dump_ops_v0 Whole c) ->
   exists e, load_file (crash_disk Eager junk done) = SErr e.
-Proof. exact C19_eager_whole_l. Qed.
-Print Assumptions C19_eager_whole.
+Proof. exact C19_marker_first_eager_whole_l. Qed.
+Print Assumptions C19_marker_first_eager_whole.
 
 (** ---- the output path already holds a file (Model/StoreOver.v) ---------------------------------- *)
 
@@ -62,12 +137,21 @@ Theorem C19_overwrite_truncate : forall old p c junk done, unparsable junk = tru
 Proof. exact C19_overwrite_truncate_l. Qed.
 Print Assumptions C19_overwrite_truncate.
 
-(** ... and a file that loads after the writer opened the path comes from a completed write and is the
-    requested collection, never the old one *)
-Theorem C19_overwrite_complete : forall old p c junk o d l, wf_coll c = true -> unparsable junk = true -> outcome_of p c o ->
-  disk_after_over Truncate AtClose old junk p c o = SOk d ->
+(** ... under every durability policy at every point before the last call (marker last) *)
+Theorem C19_overwrite_truncate_any_policy : forall pol old p c junk done, unparsable junk = true -> strict_prefix done (dump_ops p c) ->
+  load_file (over_disk Truncate pol old junk true done) = SErr ESigFile /\
+  (load_file_cur (over_disk Truncate pol old junk true done) = SErr EOS \/
+   load_file_cur (over_disk Truncate pol old junk true done) = SErr EKey \/
+   load_file_cur (over_disk Truncate pol old junk true done) = SErr ESigFile).
+Proof. exact C19_overwrite_truncate_any_policy_l. Qed.
+Print Assumptions C19_overwrite_truncate_any_policy.
+
+(** ... and a file that loads after the writer opened the path (killed under any policy, raised, completed) comes from
+    a write that got through all its calls and is the requested collection, never the old one *)
+Theorem C19_overwrite_complete : forall pol old p c junk o d l, wf_coll c = true -> unparsable junk = true -> outcome_of p c o ->
+  disk_after_over pol old junk p c o = SOk d ->
   (load_file d = SOk l \/ load_file_cur d = SOk l) ->
-  o = Completed /\ l = loaded_of c /\ decode l = SOk c.(c_sigs).
+  all_calls_done p c o /\ l = loaded_of c /\ decode l = SOk c.(c_sigs).
 Proof. exact C19_overwrite_complete_l. Qed.
 Print Assumptions C19_overwrite_complete.
 
